@@ -650,7 +650,7 @@ def run(ctx):
     # (the breadth-first export represents every repository STATE by its shortest history, in which tags are
     # made by `git tag` rather than by earlier invocations; these histories make the tool meet its own tags)
     sim = ctx.tlc("TaggerMC", "Tagger_sim.cfg" if thorough else "Tagger_simq.cfg", workers=1,
-                  simulate="num=%d" % (2500 if thorough else 150), depth=60, timeout=900, deadlock=False, count=False)
+                  simulate="num=%d" % (2000 if thorough else 150), depth=60, timeout=900, deadlock=False, count=False)
     if sim.violated:
         ctx.note(f"model-level (simulation): {sim.violated} violated (a prediction; the replay decides)")
     elif not sim.ok:
@@ -671,7 +671,7 @@ def run(ctx):
         raise MachineryError("vacuous: no history with a detached HEAD")
 
     # ---------------------------------------------------------------- 2. replay against the real binary
-    budget = int(os.environ.get("VERIF_C20_MAX", "0")) or (20000 if thorough else 1400)
+    budget = int(os.environ.get("VERIF_C20_MAX", "0")) or (12000 if thorough else 1800)
     order = list(range(len(cases)))
     if len(order) > budget:
         # always replayed: short histories, the long simulated ones, and every history whose last invocation the
